@@ -1,4 +1,4 @@
-import MpsVerif.Proofs.BatchReach
+import MpsVerif.Proofs.BatchLive
 /-!
 # C09 — workers see well-formed batches; no request waits for a full batch
 
@@ -134,5 +134,40 @@ theorem C09_partition_at_rest (c : Cfg) (s : State) (hr : Reachable c s) (hq : Q
         have := arrived_uid_inj c s hc hr'a hra hu
         subst this; exact absurd hr' h5.1
     exact ⟨by omega, h5.1⟩
+
+/-- Progress: as long as some request is pending (on `q_in` or inside a worker, not yet handed to
+    `call` / short-circuited), the servlet has a worker (`0 < k`) and the end marker has not been
+    issued, the system can move by itself: some worker action is enabled, or the clock can advance
+    towards a deadline some consumer is waiting for.  No arrival is needed — in particular the
+    batch need not fill up. -/
+theorem C09_progress (c : Cfg) (s : State) (hr : Reachable c s) (hk : 0 < c.k) (hns : s.stopped = false)
+    (hp : ∃ r, Pending c s r) : ∃ a, (ustep c s a).isSome = true := by
+  obtain ⟨a, hu, hen⟩ := progress_of_inv c s (shape_reachable c hr) (ph_reachable c hr) (time_reachable c hr) hk hns hp
+  exact ⟨a, by simp [ustep, (useful_iff c s a).mpr hu, hen]⟩
+
+/-- Bounded: without further arrivals at most `mu c s` worker actions / useful ticks are possible
+    from any state `s` (every such step strictly decreases the measure `mu`). -/
+theorem C09_served_within (c : Cfg) (s s' : State) (as : List Act) (h : Core.run (ustep c) s as = some s') :
+    as.length + mu c s' ≤ mu c s :=
+  Core.length_le_measure (mu c) (mu_ustep c) as s s' h
+
+/-- A lone request is always served.  From any reachable state before the end marker, let the
+    system run on its own (no further arrival) in any way it likes until it can do nothing more:
+    this takes at most `mu c s` steps, and then nothing is pending and every regular input that
+    had arrived — e.g. a single request that will never be joined by another — is in a batch that
+    was handed to `call` (exactly one, exactly once, by `C09_partition_at_rest`). -/
+theorem C09_lone_served (c : Cfg) (s : State) (hr : Reachable c s) (hk : 0 < c.k) (hns : s.stopped = false)
+    (as : List Act) (s' : State) (hrun : Core.run (ustep c) s as = some s') (hmax : ∀ a, ustep c s' a = none) :
+    as.length ≤ mu c s ∧ Quiet c s' ∧ ∀ r ∈ s.arrived, r.kind = .good → r ∈ calledAll s' := by
+  obtain ⟨hreach, hst, harr⟩ := run_ustep c as s s' hrun
+  have hr' : Reachable c s' := reach_trans hr hreach
+  have hnp : ¬ ∃ r, Pending c s' r := by
+    intro hp
+    obtain ⟨a, ha⟩ := C09_progress c s' hr' hk (by rw [hst]; exact hns) hp
+    rw [hmax a] at ha; simp at ha
+  have hq := quiet_of_not_pending c s' hnp
+  refine ⟨by have := C09_served_within c s s' as hrun; omega, hq, ?_⟩
+  intro r hra hk'
+  exact ((C09_partition_at_rest c s' hr' hq).1 r (by rw [harr]; exact hra) hk').2
 
 end Batch
